@@ -323,28 +323,36 @@ func Main(run *hx.Run) {
 	}
 	shuffle := 1
 	next := func() int { shuffle++; return shuffle }
+	// the thorough tier spends most of its time on the exhaustive families below: cap the random part at 6x
+	scale := func(n int) int {
+		v := run.Scale(n)
+		if run.Thorough() && v > 6*n {
+			v = 6 * n
+		}
+		return v
+	}
 
 	// hand-written boundary family, every string up to the bound, with state dumps
 	for _, s := range boundary {
 		g := parseBoundary(s)
-		run.Do("lr", plainCase(g, next(), 600, true), Exec)
+		run.Do("lr", plainCase(g, next(), 400, true), Exec)
 	}
 
 	// random reduced grammars
 	r := run.R.Fork("lr")
 	small := gx.GenOpts{MaxNonTerms: 3, MaxTerms: 2, MaxAlts: 3, MaxBody: 3, EpsChance: 15, UnitChance: 10, LeftRec: 15, CommonPref: 25}
-	for k, n := 0, run.Scale(150); k < n; k++ {
+	for k, n := 0, scale(80); k < n; k++ {
 		o := gx.DefaultOpts()
 		if k%3 != 0 {
 			o = small
 		}
 		g := randomReduced(r, o)
-		run.Do("lr", plainCase(g, next(), 450, k%4 == 0), Exec)
+		run.Do("lr", plainCase(g, next(), 400, k%4 == 0), Exec)
 	}
 
 	// operator grammars with random level assignments
 	re := run.R.Fork("expr")
-	for k, n := 0, run.Scale(60); k < n; k++ {
+	for k, n := 0, scale(40); k < n; k++ {
 		nops := re.Range(1, 4)
 		perm := append([]string{}, opNames...)
 		for i := len(perm) - 1; i > 0; i-- {
@@ -371,13 +379,13 @@ func Main(run *hx.Run) {
 
 	// resolveConflict / Compare directly
 	rr := run.R.Fork("resolve")
-	for k, n := 0, run.Scale(150); k < n; k++ {
+	for k, n := 0, scale(100); k < n; k++ {
 		run.Do("resolve", resolveCase(rr, next()), Exec)
 	}
 
 	// random grammars with random levels
 	rp := run.R.Fork("lrprec")
-	for k, n := 0, run.Scale(60); k < n; k++ {
+	for k, n := 0, scale(40); k < n; k++ {
 		run.Do("lrprec", precGrammarCase(rp, randomReduced(rp, small), next()), Exec)
 	}
 
